@@ -29,7 +29,7 @@ RULE = (
     'up to length 3 over an 18-character alphabet x every quoting form; separators = all sequences of <=3 components from a menu x '
     'all separator assignments; each x every preference setting of its family, x two entry points (PropertyValue, sheet). '
     'Non-trivial = some serialisation differs from the source spelling (normalisation did something), or the value has >=2 '
-    'components, or its content needs an escape'
+    'components, or its content needs an escape, or it is a colour keyword / function (channels come from a table / conversion)'
 )
 ASSUMPTIONS = [
     'exactness of numbers is required for every enumerated literal (all have <=6 fractional digits and <=15 significant digits)',
@@ -666,6 +666,8 @@ def _coverage(stats, case, text, acc, sers):
     nontrivial = changed or len(case['comps']) > 1
     if not nontrivial and family in ('string', 'url'):
         nontrivial = any(ch in '"\'\\\n' for ch in case['comps'][0][1])
+    if not nontrivial and family == 'colour':
+        nontrivial = case['comps'][0][0] != 'hash'  # keyword / function: the channels come from a table or a conversion
     if nontrivial:
         stats.nontrivial += 1
 
